@@ -1274,11 +1274,9 @@ fn check_spec_reserved_keys(key: &[u8], mut value: &[u8]) -> Result<(), Error> {
         IP6_ENR_KEY => {
             Ipv6Addr::decode(&mut value)?;
         }
-        b"secp256k1" => {
-            #[cfg(all(feature = "k256", not(feature = "rust-secp256k1")))]
-            <Enr<k256::ecdsa::SigningKey>>::decode(&mut value)?;
-            #[cfg(feature = "rust-secp256k1")]
-            <Enr<secp256k1::SecretKey>>::decode(&mut value)?;
+        b"secp256k1" | b"ed25519" => {
+            // Public keys are stored as RLP byte strings, exactly as the decoder requires.
+            Bytes::decode(&mut value)?;
         }
         _ => return Ok(()),
     };
